@@ -7,10 +7,11 @@ import (
 
 func Run(c *vh.Ctx) {
 	transparency(c)
+	slicedWithLag(c)
 	chunking(c)
 	gc(c)
 	c.GateCount("transparency_pairs_with_slices", 30)
 	c.Finish("exploration",
-		"(1) transparency: the same seeded scenario (rollout, handover, drift, pause, archive, delete) is run inline and with the objects moved into ObjectSlices; projected end state and per-object write order are compared and the C03-C06 monitors run on the sliced twin; (2) chunking: the real PackageDeployer runs on packages whose rendered object sizes are placed around the 1 MiB chunk limit for every chunking strategy; concatenation, slice size bound, content-determined names and planted name collisions are checked on the stored objects; (3) slice garbage collection: every ObjectSlice delete is checked online against the references held by the stored deployment template and ObjectSets; non-trivial = the run contains ObjectSlices; distinct = distinct step logs",
+		"(1) transparency: the same seeded scenario (rollout, handover, drift, pause, archive, delete) is run inline and with the objects moved into ObjectSlices; projected end state and per-object write order are compared and the C03-C06 monitors run on the sliced twin; (1b) sliced runs behind a manager cache that hides freshly created objects (slices not yet readable) under the same monitors, which take the phase content from the stored slices; (2) chunking: the real PackageDeployer runs on packages whose rendered object sizes are placed around the 1 MiB chunk limit for every chunking strategy; concatenation, slice size bound, content-determined names and planted name collisions are checked on the stored objects; (3) slice garbage collection: every ObjectSlice delete is checked online against the references held by the stored deployment template and ObjectSets; non-trivial = the run contains ObjectSlices; distinct = distinct step logs",
 		chkfam.CommonAssumptions)
 }
